@@ -58,6 +58,30 @@ def lake_build(targets=("Adc", "AdcProofs", "adcdrv"), timeout=3000):
     return p.returncode == 0, (p.stdout + p.stderr), time.time() - t0
 
 
+def leanchecker_recheck(timeout=2400):
+    """thorough tier: independent re-check of every compiled module of the project (Adc, AdcProofs) by `leanchecker`
+    (replays all declarations through the kernel).  The verdict is cached per build (stamp = newest .olean)."""
+    import glob
+    oleans = glob.glob(os.path.join(LEAN, ".lake", "build", "lib", "lean", "**", "*.olean"), recursive=True)
+    stamp = "%d:%.3f" % (len(oleans), max([os.path.getmtime(f) for f in oleans] or [0]))
+    cache = os.path.join(LEAN, ".lake", "leanchecker.stamp")
+    try:
+        if open(cache).read().strip() == stamp:
+            return True, "cached verdict for this build", 0.0
+    except OSError:
+        pass
+    t0 = time.time()
+    try:
+        p = subprocess.run(["lake", "env", "leanchecker", "AdcProofs", "Adc"], cwd=LEAN, capture_output=True, text=True, timeout=timeout)
+    except (subprocess.TimeoutExpired, FileNotFoundError) as ex:
+        return None, f"leanchecker not run: {ex!r}", time.time() - t0
+    ok = p.returncode == 0 and "uncaught exception" not in (p.stdout + p.stderr)
+    if ok:
+        with open(cache, "w") as f:
+            f.write(stamp)
+    return ok, (p.stdout + p.stderr)[-800:], time.time() - t0
+
+
 def audit_axioms(theorems, timeout=1200):
     """returns dict theorem -> sorted axiom list (or None when the theorem does not exist / fails)"""
     if not theorems:
